@@ -116,23 +116,38 @@ fn rev_ids(c: &mut Concretiser, t: &Value) -> Vec<Vec<u8>> {
         .collect()
 }
 
-/// The four ways a serialized token is admitted under a root key.
-fn admit(bytes: &[u8], root: &biscuit_auth::PublicKey) -> Vec<(&'static str, Result<Option<Biscuit>, String>)> {
+/// The verifier's root key provider of the spec: prov[0] answers "no root key id", prov[1] answers id 1;
+/// a NoKey entry (or any other id) means the provider knows no key.
+fn provider(prov: &Value) -> impl Fn(Option<u32>) -> Result<biscuit_auth::PublicKey, biscuit_auth::error::Format> + Clone {
+    let keys: Vec<Option<biscuit_auth::PublicKey>> = prov
+        .as_array()
+        .unwrap()
+        .iter()
+        .map(|k| if k["id"] == "none" { None } else { Some(keys::public_of(k)) })
+        .collect();
+    move |kid: Option<u32>| {
+        let slot = match kid { None => 0usize, Some(n) => n as usize };
+        keys.get(slot).cloned().flatten().ok_or(biscuit_auth::error::Format::UnknownPublicKey)
+    }
+}
+
+/// The four ways a serialized token is admitted under a root key (or a root key provider).
+fn admit<KP: biscuit_auth::RootKeyProvider + Clone>(bytes: &[u8], root: KP) -> Vec<(&'static str, Result<Option<Biscuit>, String>)> {
     let mut out = Vec::new();
     out.push((
         "container",
-        util::catch(|| SerializedBiscuit::from_slice(bytes, root).map(|_| None).map_err(|e| format!("{e:?}")))
+        util::catch(|| SerializedBiscuit::from_slice(bytes, root.clone()).map(|_| None).map_err(|e| format!("{e:?}")))
             .unwrap_or_else(|p| Err(format!("PANIC {p}"))),
     ));
     out.push((
         "biscuit",
-        util::catch(|| Biscuit::from(bytes, root).map(Some).map_err(|e| format!("{e:?}")))
+        util::catch(|| Biscuit::from(bytes, root.clone()).map(Some).map_err(|e| format!("{e:?}")))
             .unwrap_or_else(|p| Err(format!("PANIC {p}"))),
     ));
     let b64 = base64::encode_config(bytes, base64::URL_SAFE);
     out.push((
         "base64",
-        util::catch(|| Biscuit::from_base64(&b64, root).map(Some).map_err(|e| format!("{e:?}")))
+        util::catch(|| Biscuit::from_base64(&b64, root.clone()).map(Some).map_err(|e| format!("{e:?}")))
             .unwrap_or_else(|p| Err(format!("PANIC {p}"))),
     ));
     out.push((
@@ -140,7 +155,7 @@ fn admit(bytes: &[u8], root: &biscuit_auth::PublicKey) -> Vec<(&'static str, Res
         util::catch(|| {
             UnverifiedBiscuit::from(bytes)
                 .map_err(|e| format!("{e:?}"))
-                .and_then(|u| u.verify(root).map(Some).map_err(|e| format!("{e:?}")))
+                .and_then(|u| u.verify(root.clone()).map(Some).map_err(|e| format!("{e:?}")))
         })
         .unwrap_or_else(|p| Err(format!("PANIC {p}"))),
     ));
@@ -153,11 +168,16 @@ fn replay_forged(c: &mut Concretiser, idx: usize, case: &Value) -> Value {
     let tok = &forged["tok"];
     let expect = case["accept"].as_bool().unwrap();
     let bytes = token_bytes(c, tok);
-    let root = keys::public_of(&forged["root"]);
     let mut problems: Vec<String> = Vec::new();
     let mut panicked = false;
     let want_ids = rev_ids(c, tok);
-    for (path, r) in admit(&bytes, &root) {
+    // the verifier's key provider of the case (older exports carry the root only)
+    let admitted = if forged["prov"].is_array() {
+        admit(&bytes, provider(&forged["prov"]))
+    } else {
+        admit(&bytes, keys::public_of(&forged["root"]))
+    };
+    for (path, r) in admitted {
         match r {
             Ok(b) => {
                 if !expect {
@@ -340,7 +360,7 @@ fn replay_honest(c: &mut Concretiser, idx: usize, case: &Value) -> Value {
                     }
                     // every honest token must be admitted under its root by all entry points, byte exact
                     let root = keys::public_of(&spec_toks[i]["root"]);
-                    for (path, r) in admit(&bytes, &root) {
+                    for (path, r) in admit(&bytes, root) {
                         match r {
                             Ok(Some(b)) => {
                                 if b.to_vec().unwrap() != bytes {
